@@ -1,6 +1,7 @@
 import NirVerif.Properties.C14
 import NirVerif.Properties.C01
 import NirVerif.Properties.C13Nested
+import NirVerif.Lemmas.InferencePerm
 
 /-! # C14 — the round trips *do* return a graph inference treats alike
 
@@ -141,6 +142,50 @@ theorem check_file_roundtrip (version : String) (children : Nodes) (edges : List
     | cons e rest ih => simp only [forEachEdge, checkEdge_congr cs children hl e, ih]
   rw [hg]
   simp only [checkTypes, mkGraph, Node.children, Node.edges, hfe]
+
+/-- **Inference does not see the order of the node dictionary**: two graphs with the same edges whose node dictionaries are
+permutations of each other (no repeated names) infer with the same error, and to node tables in which every name holds the
+same node — consistent graphs or not. -/
+theorem infer_perm (kd kd' : String) (fl fl' : List (String × Val)) (it ot md it' ot' md' : Val) (c1 c2 : Nodes)
+    (edges : List Edge) (hperm : c1.Perm c2) (hk : (c2.map Prod.fst).Nodup) :
+    (inferTypes (Node.mk kd fl it ot md c1 edges)).2 = (inferTypes (Node.mk kd' fl' it' ot' md' c2 edges)).2 ∧
+    SameLookups (inferTypes (Node.mk kd fl it ot md c1 edges)).1.children
+                (inferTypes (Node.mk kd' fl' it' ot' md' c2 edges)).1.children := by
+  have hk1 : (c1.map Prod.fst).Nodup := (hperm.map Prod.fst).nodup_iff.mpr hk
+  have hl : SameLookups c1 c2 := fun k => lookup_perm hperm hk1 k
+  have hin : ∀ x, x ∈ (c1.filter (fun kv => kv.2.isKind "Input")).map Prod.fst ↔
+      x ∈ (c2.filter (fun kv => kv.2.isKind "Input")).map Prod.fst := fun x => mem_inputs_perm hperm x
+  have hemp : (c1.filter (fun kv => kv.2.isKind "Input")).isEmpty = (c2.filter (fun kv => kv.2.isKind "Input")).isEmpty := by
+    have := (hperm.filter (fun kv => kv.2.isKind "Input")).length_eq
+    cases h1 : c1.filter (fun kv => kv.2.isKind "Input") <;> cases h2 : c2.filter (fun kv => kv.2.isKind "Input") <;>
+      simp_all
+  obtain ⟨hr, he⟩ := forward_rel edges c1 c2 hl _ _ hin
+  cases hc2 : (c2.filter (fun kv => kv.2.isKind "Input")).isEmpty with
+  | true =>
+    have hc1 := hemp.trans hc2
+    simp only [inferTypes, graphInputs, Node.children, hc1, hc2, if_true]
+    exact ⟨trivial, hl⟩
+  | false =>
+    have hc1 := hemp.trans hc2
+    simp only [inferTypes, graphInputs, Node.children, hc1, hc2, Bool.false_eq_true, if_false, forwardInference, Node.edges]
+    refine ⟨?_, ?_⟩
+    · have := congrArg (fun p => p.2) he
+      simpa using this
+    · simpa [Node.refreshIO, Node.setChildren, Node.setTypes, Node.children] using hr
+
+/-- **The file round trip commutes with inference on every flat file-exact graph** — consistent or not: whatever
+`read(write(g))` returns infers with the same error as `g`, and every name ends up holding the same node. -/
+theorem file_roundtrip_infer_any (version : String) (children : Nodes) (edges : List Edge) (it ot : Val)
+    (hkeys : (children.map Prod.fst).Nodup)
+    (hex : ∀ k n, lookup k children = some n → C01.FileExact n)
+    (f : H5) (hwr : write version (Node.mk "NIRGraph" [] it ot (.dict []) children edges) = .ok f)
+    (g' : Node) (hrd : read f = .ok g') :
+    (inferTypes g').2 = (inferTypes (Node.mk "NIRGraph" [] it ot (.dict []) children edges)).2 ∧
+    ∀ k, lookup k (inferTypes g').1.children =
+         lookup k (inferTypes (Node.mk "NIRGraph" [] it ot (.dict []) children edges)).1.children := by
+  obtain ⟨cs, hg, hperm⟩ := C01.graph_file_exact version children edges it ot hkeys hex f hwr g' hrd
+  rw [hg]
+  exact infer_perm "NIRGraph" "NIRGraph" [] [] _ _ _ it ot (.dict []) cs children edges hperm hkeys
 
 /-! ## Non-vacuity: the Input → LIF → Output graph of `C01` (with a recurrent edge) meets every hypothesis -/
 
